@@ -14,7 +14,9 @@ PROPERTY_ID = 'C05'
 LEVEL = 'exploration'
 LINES_BASE, LINES_PER_BYTE = 20000, 20000
 NODES_BASE, NODES_PER_BYTE = 1000, 64
-RULE = ('inputs: every truncation of generated valid messages (exhaustive per message), 1-3 byte mutations (bit flip, '
+RULE = ('copy_work: valid messages with 300 / 3000 small containers decoded from a bytes subclass that counts the bytes '
+        'slicing copies (work inside C primitives, which the line budget cannot see): at most 8x the message length. '
+        'inputs: every truncation of generated valid messages (exhaustive per message), 1-3 byte mutations (bit flip, '
         '00, ff, 7f, 80, random), every length field of the message (body length, header array length, string / array / '
         'signature lengths, located through the reference encoder offset map) rewritten to 0, +-1, 2^31, 2^32-1, '
         'rest-of-buffer+-1, hostile signatures (zero-size array elements a() a{} a(()()), nesting to 254, unterminated '
@@ -402,6 +404,65 @@ def classify_any(case):
     return classify_(case)
 
 
+# --------------------------------------------------------------------------
+# work done inside C primitives: bytes copied by slicing (invisible to a line budget)
+
+class _CountingBytes(bytes):
+    """bytes whose slices are counted (and stay counting): every slice copies its result."""
+    copied = [0]
+
+    def __getitem__(self, k):
+        r = bytes.__getitem__(self, k)
+        if isinstance(k, slice):
+            _CountingBytes.copied[0] += len(r)
+            return _CountingBytes(r)
+        return r
+
+
+COPY_SHAPES = {
+    # name -> (signature, function n -> trees): many small containers inside one message, all of it valid
+    'aay-empty': ('aay', lambda n: [[[] for _ in range(n)]]),
+    'aay-one': ('aay', lambda n: [[[7] for _ in range(n)]]),
+    'a(ay)': ('a(ay)', lambda n: [[[[]] for _ in range(n)]]),
+    'av-of-ay': ('av', lambda n: [[['ay', [1, 2]] for _ in range(n)]]),
+    'a{uas}': ('a{uas}', lambda n: [[[i, ['k']] for i in range(n)]]),
+    'as': ('as', lambda n: [['s%d' % i for i in range(n)]]),
+    'aas': ('aas', lambda n: [[['x'] for _ in range(n)]]),
+}
+
+
+def enum_copy_work(tier):
+    for name in sorted(COPY_SHAPES):
+        for n in ((300, 3000) if tier == 'quick' else (300, 3000, 30000)):
+            for little in (True, False):
+                yield {'shape': name, 'n': n, 'little': little}
+
+
+def run_copy_work(case):
+    from txdbus import message as MSG
+    sig, mk = COPY_SHAPES[case['shape']]
+    trees = mk(case['n'])
+    raw = R.encode_message(4, 5, {1: '/o', 2: 'a.b', 3: 'S'}, sig, trees, little=case['little'])
+    _CountingBytes.copied[0] = 0
+    try:
+        m = MSG.parseMessage(_CountingBytes(raw), [])
+    except Exception as e:
+        return [Disc(exc_key(e, 'copy.parse'), exc_detail(e))]
+    copied = _CountingBytes.copied[0]
+    out = []
+    if not R.nf_equal(m.body, S.normal_forms(sig, trees)):
+        out.append(Disc('copy.body', 'shape %s n=%d decoded wrongly' % (case['shape'], case['n'])))
+    # the fixed header, the header fields, the body and every string are each sliced out once: a few times the length
+    if copied > 8 * len(raw) + 4096:
+        out.append(Disc('copy.superlinear', 'shape %s n=%d: a %d-byte message made the decoder copy %d bytes (%.0fx)' % (
+            case['shape'], case['n'], len(raw), copied, copied / len(raw))))
+    return out
+
+
+def classify_copy_work(case):
+    return True, [case['shape'], 'n=%d' % case['n']]
+
+
 SUBCHECKS = [
     Subcheck('hostile', run, classify_, strategy=lambda tier: hostile_case(tier),
              n={'quick': 700, 'thorough': 8000}),
@@ -419,5 +480,8 @@ SUBCHECKS = [
     Subcheck('fd_count', run, classify_, enumerate=enum_fd_count, shards={'quick': 4, 'thorough': 4},
              exhaustive_note='4 message types x 5 bodies (with and without h arguments) x 10 claimed descriptor counts up '
                              'to 2^32-1 x 2 byte orders'),
+    Subcheck('copy_work', run_copy_work, classify_copy_work, enumerate=enum_copy_work, shards={'quick': 4, 'thorough': 4},
+             exhaustive_note='valid messages holding 300 / 3000 (/ 30000) small containers of 7 shapes, decoded from a bytes '
+                             'subclass that counts what slicing copies: at most 8x the message length'),
     Subcheck('atheris', run_any, classify_any, enumerate=enum_atheris, shards={'quick': 1, 'thorough': 8}),
 ]
